@@ -8,6 +8,20 @@ open Rlbox Driver Driver.PtrEng
 
 def addrOf (s : String) : Option Nat := if s == "null" then some 0 else s.toNat?.map fun o => (regionOf 0).base + o
 
+/-- odd part and number of factors 2 -/
+def stripTwos : Nat → Nat → Nat × Nat
+  | n, 0 => (n, 0)
+  | n, fuel + 1 => if n ≠ 0 ∧ n % 2 = 0 then let r := stripTwos (n / 2) fuel; (r.1, r.2 + 1) else (n, 0)
+
+/-- `num / 2^k` printed as `m e` with `m` odd (value `m * 2^e`), `0 0` for zero -/
+def showDy (num : Int) (k : Nat) : String :=
+  if num = 0 then "0 0" else
+  let r := stripTwos num.natAbs (bitLen num.natAbs)
+  s!"{if num < 0 then "-" else ""}{r.1} {(r.2 : Int) - (k : Int)}"
+
+def floatTyOfName : String → Option FloatTy
+  | "float" => some .float | "double" => some .double | "ldouble" => some .ldouble | _ => none
+
 def step (t : List String) : Option String :=
   match t with
   | ["opq", ty, v] =>
@@ -29,6 +43,28 @@ def step (t : List String) : Option String :=
             | some g => pure (showOpt (sandboxStaticCast abiA to fr (.tvol g)))
           else pure (showOpt (sandboxStaticCast abiA to fr (.tainted x)))
       | _ => none
+  | ["scastf", to, src, v] => do
+      let to ← floatTyOfName to
+      match src.splitOn ":" with
+      | [w, fr] =>
+          let fr ← Conv.baseTyOfName fr; let x ← parseInt? v
+          if ¬ fr.app.inRange x then pure "badinput" else
+          let src : Option CastSrc := if w == "tvol" then (toSandbox abiA fr x).map .tvol else some (.tainted x)
+          match src with
+          | none => pure "abort"
+          | some s => match sandboxStaticCastIF abiA to fr s with
+            | some r => pure s!"ok {showDy r 0}"
+            | none => pure "abort"
+      | _ => none
+  | ["scastfi", to, _src, num, k] => do
+      let to ← Conv.baseTyOfName to; let num ← parseInt? num; let k ← k.toNat?
+      match floatToInt to ⟨num, k⟩ with
+      | some r => pure s!"ok {r}"
+      | none => pure "ub"
+  | ["scastff", to, _src, num, k] => do
+      let to ← floatTyOfName to; let num ← parseInt? num; let k ← k.toNat?
+      let r := floatToFloat to ⟨num, k⟩
+      pure s!"ok {showDy r.num r.k}"
   | ["rcast", w, _src, _dst, off] | ["ccast", w, off] => do
       let a ← addrOf off
       if w == "tvol" then
